@@ -13,3 +13,4 @@ import LettreVerif.Props.C02
 import LettreVerif.Props.C12
 import LettreVerif.Props.C17
 import LettreVerif.Props.C01
+import LettreVerif.Props.C11
